@@ -143,7 +143,12 @@ func (c exactEqualsComparator) lineStringsEq(ls1, ls2 LineString) bool {
 
 	// Next check if one ring is just the reversal of the other.
 	reversed := func(i int) int { return n - i - 1 }
-	areRings := ls1.IsRing() && ls2.IsRing()
+	// For the purpose of ignoring the start point, the first and last control
+	// points of each ring must be equal to each other as a whole (including Z
+	// and M). The offset mapping below never visits the last control point of
+	// the second ring, relying on it being the same as its first.
+	areRings := ls1.IsRing() && ls2.IsRing() &&
+		c.eq(c1.Get(0), c1.Get(n-1)) && c.eq(c2.Get(0), c2.Get(n-1))
 	if revEq := sameCurve(identity, reversed); revEq || !areRings {
 		return revEq
 	}
